@@ -46,7 +46,38 @@ def _run_once(chk):
                   want=lambda a: len(a) >= 1 and not any(x in a for x in ("-c", "-b", "-l")))
 
 
+def other_build(chk):
+    """the build without default features (no regex crate, no fast lane): the `#[cfg(not(feature = "regex"))]` twins of maybe_replace_delimiter
+    & co. are different source text.  Field-mode command lines that need neither -e nor -c must print the same bytes on both builds."""
+    from cases import rand_cli, _fix_M
+    from common import build_tuc, build_tuc_noregex, run_cli
+    rng = chk.rng
+    a, b = build_tuc(release=False), build_tuc_noregex()
+    cs = []
+    while len(cs) < (800 if chk.tier == "quick" else 8000):
+        argv, inp, c = rand_cli(rng)
+        argv = _fix_M(argv, c)
+        if not argv or c.get("bt", "f") != "f" or "-e" in argv:
+            continue
+        if rng.random() < 0.4:
+            # -r with runs of delimiters (parts that are exactly one delimiter, empty neighbours)
+            d = c.get("d") or b"\t"
+            inp = rng.choice([b"a", b"", b"x"]) + d * rng.randint(2, 4) + rng.choice([b"b", b""]) + (b"\0" if c.get("z") else b"\n") + inp
+            if "-r" not in argv and "--json" not in argv:
+                argv = argv + ["-r", rng.choice([";", "<->", ""])]
+        cs.append((argv, inp))
+    ra, rb = run_cli(a, cs), run_cli(b, cs)
+    for (argv, inp), x, y in zip(cs, ra, rb):
+        chk.evaluations += 1
+        chk.count("other-build")
+        chk.nontrivial_add(("other-build", tuple(argv), inp))
+        if x != y:
+            chk.report_oracle("the build without default features prints something else than the default build",
+                              {"argv": argv, "stdin_hex": inp.hex(), "default_build": [x[0], x[1].hex()], "no_default_features_build": [y[0], y[1].hex()]})
+
+
 def run(chk):
+    other_build(chk)
     # thorough = several independent rounds of the same generators (the PRNG keeps advancing), so that memory stays bounded
     for _round in range(1 if chk.tier == "quick" else 6):
         _run_once(chk)
